@@ -139,6 +139,11 @@ func confirms(v *interp.Violation, r nativeResult) bool {
 	case "panic":
 		return r.Outcome == "panic" || r.Outcome == "crash"
 	case "crash":
+		if strings.Contains(v.Msg, "unbounded recursion") && r.Outcome == "timeout" {
+			// natively an unbounded recursion ends in a fatal stack overflow or, when every
+			// level is slow (a lexer goroutine per level), does not end within the limit
+			return true
+		}
 		return r.Outcome == "crash" || r.Outcome == "panic"
 	case "deadlock", "hang":
 		return r.Outcome == "timeout"
